@@ -153,6 +153,16 @@ def train_case(draw, path=False):
     cl = [[i, j] for i, j in pairs if groups[i] != groups[j]]
     out = {"spec": s, "ml": ml, "cl": cl, "factor": draw(st.sampled_from([0.5, 1.0, 3.0])),
            "containers": [draw(st.sampled_from(CONTAINERS)), draw(st.sampled_from(CONTAINERS))]}
+    if draw(st.integers(0, 3)) == 0:
+        # the helper applied a second time to the same model, with its own pairs and its own weight
+        pairs2 = draw(st.lists(st.tuples(st.integers(0, n - 1), st.integers(0, n - 1)).filter(lambda p: p[0] != p[1]),
+                               min_size=1, max_size=4))
+        out["again"] = {"ml": [[i, j] for i, j in pairs2 if groups[i] == groups[j]],
+                        "cl": [[i, j] for i, j in pairs2 if groups[i] != groups[j]],
+                        "factor": draw(st.sampled_from([4.0, 0.25, 1.0]))}
+    if not path and draw(st.integers(0, 3)) == 0:
+        # the decorated model is first fitted on the first m samples only (pairs naming later samples stay silent), then on all
+        out["prefit_rows"] = draw(st.integers(max(1, s["n_clusters"]), n))
     if path:
         out["path"] = {"alpha_multiplier": draw(st.sampled_from([3.0, 1.5])), "min_features": draw(st.integers(1, 2)),
                        "max_patience": draw(st.integers(1, 2))}
@@ -164,6 +174,12 @@ def oracle_train(case):
     s = case["spec"]
     ml, cl, factor = case["ml"], case["cl"], case["factor"]
     label = E.label(s) + f" with must_link={ml}, cannot_link={cl}, factor={factor}"
+    decorations = [{"ml": ml, "cl": cl, "factor": factor}]
+    if case.get("again"):
+        decorations.append(case["again"])
+        label += f", decorated again with {case['again']}"
+    if case.get("prefit_rows"):
+        label += f", fitted first on the first {case['prefit_rows']} samples"
     X = unique_data(s)
     est, y = E.build(s, X)
     rec = BatchRecorder(est, keep=False)
@@ -179,20 +195,15 @@ def oracle_train(case):
         want = np.array(base, dtype=float, copy=True)
         touched = set()
         pos = {ix: r for r, ix in enumerate(idx)}
-        for (i, j) in cl:
-            if i in pos and j in pos:
-                want[pos[i]] += factor * (y_pred[pos[i]] - y_pred[pos[j]])
-                want[pos[j]] += factor * (y_pred[pos[j]] - y_pred[pos[i]])
-                touched |= {pos[i], pos[j]}
-                seen["active"] += 1
-                seen["displaced"] += int(pos[i] != i or pos[j] != j)
-        for (i, j) in ml:
-            if i in pos and j in pos:
-                want[pos[i]] -= factor * (y_pred[pos[i]] - y_pred[pos[j]])
-                want[pos[j]] -= factor * (y_pred[pos[j]] - y_pred[pos[i]])
-                touched |= {pos[i], pos[j]}
-                seen["active"] += 1
-                seen["displaced"] += int(pos[i] != i or pos[j] != j)
+        for deco in decorations:
+            for sign, pairs_ in ((1.0, deco["cl"]), (-1.0, deco["ml"])):
+                for (i, j) in pairs_:
+                    if i in pos and j in pos:
+                        want[pos[i]] += sign * deco["factor"] * (y_pred[pos[i]] - y_pred[pos[j]])
+                        want[pos[j]] += sign * deco["factor"] * (y_pred[pos[j]] - y_pred[pos[i]])
+                        touched |= {pos[i], pos[j]}
+                        seen["active"] += 1
+                        seen["displaced"] += int(pos[i] != i or pos[j] != j)
         got = np.asarray(gradient)
         if got.shape != want.shape:
             raise Violation(f"{label}: gradient reaching the model has shape {got.shape}, predictions {want.shape}")
@@ -212,11 +223,21 @@ def oracle_train(case):
     try:
         kinds = case.get("containers", ["list", "list"])
         add_mlcl_constraint(est, contain(ml, kinds[0]), contain(cl, kinds[1]), factor)
+        if case.get("again"):
+            add_mlcl_constraint(est, contain(case["again"]["ml"], kinds[1]), contain(case["again"]["cl"], kinds[0]), case["again"]["factor"])
     except ValueError as e:
         raise Violation(f"{label}: consistent constraints were rejected: {e}")
     with warnings.catch_warnings():
         warnings.simplefilter("ignore")
         with np.errstate(all="ignore"):
+            if case.get("prefit_rows"):
+                m = case["prefit_rows"]
+                try:
+                    est.fit(X[:m], None if y is None else np.ascontiguousarray(np.asarray(y)[:m, :m]))
+                except Violation:
+                    raise
+                except Exception:
+                    pass
             try:
                 if "path" in case:
                     est.path(X, y, **case["path"])
